@@ -26,6 +26,11 @@ Structs ==
     (* expression operands; `form` carries the DWARF format (32/64) *)
     \cup { [k |-> "expr", ver |-> v, tu |-> FALSE, asz |-> a, form |-> f] :
               v \in {2, 3, 4, 5}, f \in {32, 64}, a \in (IF FullScripts THEN {4, 8} ELSE {8}) }
+    (* encoded pointers: `form` = pointer format, `ver` = application nibble of the FDE encoding *)
+    \cup { [k |-> "ehframe", ver |-> app, tu |-> FALSE, asz |-> a, form |-> f] :
+              app \in {0, 16}, f \in EhFormats, a \in (IF FullScripts THEN {4, 8} ELSE {8}) }
+    \cup { [k |-> "ehhdr", ver |-> 0, tu |-> FALSE, asz |-> a, form |-> f] :
+              f \in EhFormats, a \in (IF FullScripts THEN {4, 8} ELSE {8}) }
     \cup { [k |-> "line4", ver |-> 4, tu |-> FALSE, asz |-> a, form |-> 0] : a \in {4, 8} }
     \cup { [k |-> "line5", ver |-> 5, tu |-> FALSE, asz |-> a, form |-> f] : a \in {4, 8}, f \in {31, 14} }
     \cup { [k |-> kk, ver |-> 4, tu |-> FALSE, asz |-> a, form |-> 0] : kk \in {"ranges", "frame"}, a \in {4, 8} }
@@ -34,6 +39,8 @@ Structs ==
 Fields(s) == CASE s.k = "unit"     -> Unit(s.ver, s.asz, s.tu)
                [] s.k = "unit64"   -> Unit64(s.ver, s.asz, s.tu)
                [] s.k = "expr"     -> ExprUnit(s.ver, s.asz, s.form)
+               [] s.k = "ehframe"  -> EhFrameSec(s.asz, s.form, s.ver)
+               [] s.k = "ehhdr"    -> EhHdrSec(s.asz, s.form)
                [] s.k = "line4"    -> LineV4(s.asz)
                [] s.k = "line5"    -> LineV5(s.asz, s.form)
                [] s.k = "ranges"   -> Ranges(s.asz)
@@ -100,7 +107,7 @@ ReadCase ==
     LET fs == Fields(c.s)
         ap == Apply(fs, c.rels) IN
     [sys |-> "reloc", side |-> "read", kind |-> c.s.k, ver |-> c.s.ver, asz |-> c.s.asz, tu |-> c.s.tu,
-     main |-> Cat(fs), applied |-> Cat(ap), aux |-> Aux(c.s),
+     form |-> c.s.form, main |-> Cat(fs), applied |-> Cat(ap), aux |-> Aux(c.s),
      fields |-> FieldMap(fs), relmap |-> RelMap(fs, c.rels), calls |-> ExpectCalls(fs, c.rels),
      nrel |-> Cardinality(DOMAIN c.rels)]
 WProj(w) == [ok |-> w.ok, bytes |-> w.bytes, rels |-> w.rels]
